@@ -194,6 +194,22 @@ try_parse_ipv4_fast(std::string_view input) noexcept {
   }
   const char* data = input.data();
 
+#if ADA_URL_ADA_VERIF
+  {
+#if defined(ADA_AVX512)
+    const uint64_t verif_r = detail::try_parse_ipv4_avx512(data, len);
+#else
+    const uint64_t verif_r =
+        detail::parse_ipv4_decimal_scalar(data, data + len);
+#endif
+    if (verif_r == ipv4_fast_fail) {
+      ADA_VERIF_COUNT(C_IPV4_FAST_FAIL);
+    } else {
+      ADA_VERIF_COUNT(C_IPV4_FAST_OK);
+    }
+    return verif_r;
+  }
+#endif  // ADA_URL_ADA_VERIF
 #if defined(ADA_AVX512)
   return detail::try_parse_ipv4_avx512(data, len);
 #else
